@@ -18,6 +18,7 @@ import (
 	"os"
 	"strconv"
 	"strings"
+	"sync"
 	"time"
 	"unsafe"
 )
@@ -94,9 +95,10 @@ func vxLen(max int) int {
 	}
 	return n
 }
-func vxU32() uint32    { return uint32(vxNum("u32")) }
-func vxU16() uint16    { return uint16(vxNum("u16")) }
-func vxU8() uint8      { return uint8(vxNum("u8")) }
+func vxU32() uint32 { return uint32(vxNum("u32")) }
+func vxU16() uint16 { return uint16(vxNum("u16")) }
+func vxU8() uint8   { return uint8(vxNum("u8")) }
+
 // vxForced, when non-nil, supplies vxBool's results (model validation; exhausted -> false).
 var vxForced []bool
 
@@ -180,9 +182,20 @@ func vxKnownOpen(key string) bool {
 	}
 	return false
 }
-func vxReach(string)             {}
-func vxUnwind(int, bool)         {}
-func vxGuard(_, _, _ string)     {}
+func vxReach(string)               {}
+func vxUnwind(int, bool)           {}
+func vxGuard(_, _, _ string)       {}
+func vxConcretize(x, _, _ int) int { return x }
+func vxGuardsOff()                 {}
+
+// vxMutexHeld reports whether mu is currently locked.
+func vxMutexHeld(mu *sync.Mutex) bool {
+	if mu.TryLock() {
+		mu.Unlock()
+		return false
+	}
+	return true
+}
 func vxNote(string)              {}
 func vxIsNilSlice(s []byte) bool { return s == nil }
 
